@@ -120,6 +120,8 @@ def canon_fn(name):
         elif depth == 0:
             out.append(ch)
     name = ''.join(out).strip()
+    name = re.sub(r'\s+(const|volatile|&|&&|noexcept)$', '', name)
+    name = re.sub(r'\s+(const|volatile|&|&&|noexcept)$', '', name)
     name = re.sub(r'\{lambda#\d+\}', '{lambda}', name)
     name = name.replace('(anonymous namespace)::', '').replace('std::__n4861::', 'std::')
     return name.split(' ')[-1] if name else '?'
@@ -155,9 +157,20 @@ def site_of(frames):
 def canon_signature(exe, sig, detail):
     m = re.match(r'race/(0x[0-9a-f]+)~(0x[0-9a-f]+)$', sig)
     if m:
-        sy = symbolise(exe, [m.group(1), m.group(2)])
-        a, la = site_of(sy[m.group(1)])
-        b, lb = site_of(sy[m.group(2)])
+        cp = re.findall(r'at pc (0x[0-9a-f]+) \(called from pc (0x[0-9a-f]+)\)', detail)
+        callers = {a: c for a, c in cp}
+        sy = symbolise(exe, [m.group(1), m.group(2)] + [c for c in callers.values() if c != '0'])
+
+        def site2(pc):
+            s_, l_ = site_of(sy[pc])
+            c = callers.get(pc)
+            if '/cocls/' not in l_ and c and c in sy and c != '0':
+                s2, l2 = site_of(sy[c])
+                if '/cocls/' in l2:
+                    return s2, l2 + ' <- ' + l_
+            return s_, l_
+        a, la = site2(m.group(1))
+        b, lb = site2(m.group(2))
         x = sorted([(a, la), (b, lb)])
         return f'race/{x[0][0]}~{x[1][0]}', detail + f' [{x[0][1]} ~ {x[1][1]}]'
     pcs = sorted(set(re.findall(r'pc (0x[0-9a-f]+)', detail)))
